@@ -177,7 +177,9 @@ def run_single(prop, seed, preset, want_case, schema_knobs=None, doc_knobs=None,
             alt_knobs = dict(plan_knobs or {}, skip_null_excludes=True, reuse_results=plan.results)
             alt = make_plan(case, Tape(seed, preset), faults, knobs=alt_knobs, base=getattr(plan, "base", None) or plan,
                             root_value=plan.root_value)
-            if matches_deviation_plan(alt, out.resp, out.rt):
+            # (the deviation plan shares the primary plan's resolver results and root value, so the ordinary
+            # plan check applies to it unchanged: data, error accounting incl. doomed positions, calls, parents)
+            if not check_against_plan(case, alt, out.resp, out.rt, out.events, strict_calls):
                 pv = [V("data_mismatch", "a selection carrying @skip(if: $v) with $v null (nullable variable with a default, explicit "
                         "null given) was dropped without an error; CollectFields keeps it: " + (pv[0]["detail"] if isinstance(pv[0], dict) else str(pv[0]))[:300],
                         kind="skip_if_null_selection_dropped")]
